@@ -2831,36 +2831,15 @@ let qType_table =
     true, false)), (String ((Ascii (false, true, true, false, false, false,
     true, false)), (String ((Ascii (false, true, false, false, true, false,
     true, false)), EmptyString)))))))), (Npos (XI (XI (XO (XI (XI (XI (XI
-    XH))))))))) :: (((String ((Ascii (true, false, false, false, false,
-    false, true, false)), (String ((Ascii (false, false, false, true, true,
-    false, true, false)), (String ((Ascii (false, true, true, false, false,
-    false, true, false)), (String ((Ascii (false, true, false, false, true,
-    false, true, false)), EmptyString)))))))), (Npos (XO (XO (XI (XI (XI (XI
-    (XI XH))))))))) :: (((String ((Ascii (true, false, true, true, false,
+    XH))))))))) :: (((String ((Ascii (true, false, true, false, true, false,
+    true, false)), (String ((Ascii (false, true, false, false, true, false,
+    true, false)), (String ((Ascii (true, false, false, true, false, false,
+    true, false)), EmptyString)))))), (Npos (XO (XO (XO (XO (XO (XO (XO (XO
+    XH)))))))))) :: (((String ((Ascii (true, true, false, false, false,
     false, true, false)), (String ((Ascii (true, false, false, false, false,
-    false, true, false)), (String ((Ascii (true, false, false, true, false,
-    false, true, false)), (String ((Ascii (false, false, true, true, false,
     false, true, false)), (String ((Ascii (true, false, false, false, false,
-    false, true, false)), EmptyString)))))))))), (Npos (XI (XO (XI (XI (XI
-    (XI (XI XH))))))))) :: (((String ((Ascii (true, false, true, true, false,
-    false, true, false)), (String ((Ascii (true, false, false, false, false,
-    false, true, false)), (String ((Ascii (true, false, false, true, false,
-    false, true, false)), (String ((Ascii (false, false, true, true, false,
-    false, true, false)), (String ((Ascii (false, true, false, false, false,
-    false, true, false)), EmptyString)))))))))), (Npos (XO (XI (XI (XI (XI
-    (XI (XI XH))))))))) :: (((String ((Ascii (true, false, false, false,
-    false, false, true, false)), (String ((Ascii (false, false, true, true,
-    false, false, true, false)), (String ((Ascii (false, false, true, true,
-    false, false, true, false)), EmptyString)))))), (Npos (XI (XI (XI (XI (XI
-    (XI (XI XH))))))))) :: (((String ((Ascii (true, false, true, false, true,
-    false, true, false)), (String ((Ascii (false, true, false, false, true,
-    false, true, false)), (String ((Ascii (true, false, false, true, false,
-    false, true, false)), EmptyString)))))), (Npos (XO (XO (XO (XO (XO (XO
-    (XO (XO XH)))))))))) :: (((String ((Ascii (true, true, false, false,
-    false, false, true, false)), (String ((Ascii (true, false, false, false,
-    false, false, true, false)), (String ((Ascii (true, false, false, false,
-    false, false, true, false)), EmptyString)))))), (Npos (XI (XO (XO (XO (XO
-    (XO (XO (XO XH)))))))))) :: (((String ((Ascii (true, false, false, false,
+    false, true, false)), EmptyString)))))), (Npos (XI (XO (XO (XO (XO (XO
+    (XO (XO XH)))))))))) :: (((String ((Ascii (true, false, false, false,
     false, false, true, false)), (String ((Ascii (false, true, true, false,
     true, false, true, false)), (String ((Ascii (true, true, false, false,
     false, false, true, false)), EmptyString)))))), (Npos (XO (XI (XO (XO (XO
@@ -2885,8 +2864,30 @@ let qType_table =
     false, false, true, false)), (String ((Ascii (false, false, true, true,
     false, false, true, false)), (String ((Ascii (false, true, true, false,
     true, false, true, false)), EmptyString)))))), (Npos (XI (XO (XO (XO (XO
-    (XO (XO (XO (XO (XO (XO (XO (XO (XO (XO
-    XH))))))))))))))))) :: [])))))))))))))))))))))))))))))))))))))))))))))))))))))))))))))))))))))))))))))))))))))))
+    (XO (XO (XO (XO (XO (XO (XO (XO (XO (XO XH))))))))))))))))) :: (((String
+    ((Ascii (true, false, false, false, false, false, true, false)), (String
+    ((Ascii (false, false, false, true, true, false, true, false)), (String
+    ((Ascii (false, true, true, false, false, false, true, false)), (String
+    ((Ascii (false, true, false, false, true, false, true, false)),
+    EmptyString)))))))), (Npos (XO (XO (XI (XI (XI (XI (XI
+    XH))))))))) :: (((String ((Ascii (true, false, true, true, false, false,
+    true, false)), (String ((Ascii (true, false, false, false, false, false,
+    true, false)), (String ((Ascii (true, false, false, true, false, false,
+    true, false)), (String ((Ascii (false, false, true, true, false, false,
+    true, false)), (String ((Ascii (false, true, false, false, false, false,
+    true, false)), EmptyString)))))))))), (Npos (XI (XO (XI (XI (XI (XI (XI
+    XH))))))))) :: (((String ((Ascii (true, false, true, true, false, false,
+    true, false)), (String ((Ascii (true, false, false, false, false, false,
+    true, false)), (String ((Ascii (true, false, false, true, false, false,
+    true, false)), (String ((Ascii (false, false, true, true, false, false,
+    true, false)), (String ((Ascii (true, false, false, false, false, false,
+    true, false)), EmptyString)))))))))), (Npos (XO (XI (XI (XI (XI (XI (XI
+    XH))))))))) :: (((String ((Ascii (true, false, false, false, false,
+    false, true, false)), (String ((Ascii (false, false, true, true, false,
+    false, true, false)), (String ((Ascii (false, false, true, true, false,
+    false, true, false)), EmptyString)))))), (Npos (XI (XI (XI (XI (XI (XI
+    (XI
+    XH))))))))) :: [])))))))))))))))))))))))))))))))))))))))))))))))))))))))))))))))))))))))))))))))))))))))
 
 (** val qClass_width : n **)
 
